@@ -1,7 +1,20 @@
 # property id -> [(module under parts/, function, kwargs)]
 G = "gosym_part"
 
+C06_ASSUME = ["type shapes limited to harness generator anyStructural (primitives, aliases of primitives, optional/union/vector/array/map/stream over them)",
+              "evolution context empty (no named record/enum definitions) in the type-pair harness"]
+
 PARTS = {
+    "C06": [
+        (G, "gosym_part", dict(name="c06_reflexive", entry="internal/zzverif.C06Reflexive", args_quick=(1, 1), args_thorough=(2, 1),
+                               required_sites=("reflexive", "total"), assumptions=C06_ASSUME,
+                               desc="compareTypes(clone(T), T) reports no change and does not panic, T symbolic (depth, full-primitive leaves)")),
+        (G, "gosym_part", dict(name="c06_pair", entry="internal/zzverif.C06Pair", args_quick=(0, 2), args_thorough=(0, 2),
+                               required_sites=("total", "silence-implies-same-plan", "silence-symmetric", "error-symmetric", "partial-has-warning"),
+                               assumptions=C06_ASSUME,
+                               desc="compareTypes on two independent symbolic types: total in both directions; nil => identical wire plan; "
+                                    "nil-ness and error-ness symmetric; accepted-but-changed => non-empty warning")),
+    ],
     "C14": [
         (G, "gosym_part", dict(name="c14_type_plans", entry="internal/zzverif.C14Type", args_quick=(1, 1), args_thorough=(2, 1),
                                extra_thorough=("-max-paths", "400000"),
@@ -12,4 +25,19 @@ PARTS = {
                                assumptions=["head tables in harness/go/internal/zzverif/zz_plan.go give the meaning of each runtime entry point",
                                             "type shapes limited to the generator in zz_gen.go (depth bound; union = 2 cases (+null); records 1-2 fields; one generic parameter)"])),
     ],
+}
+
+HOOK_COMMITS = []
+NOTES = ("Every claim is bounded: 'holds' means unsat within the stated bound. Exit 3 + INCONCLUSIVE lines mean the solver or the "
+         "encoder could not decide; that is never reported as success. See DESIGN.md.")
+NOT_APPLICABLE = {}
+
+CLAIMS = {
+    "C14": dict(text="Bounded symbolic execution (gosym) of the four binary type->serializer recursions on one symbolic type: every emitted "
+                     "expression denotes Plan(T) for all shapes within the depth bound and all 64-bit lengths/dimensions; violations are replayed natively.",
+                note="Trusts the head tables (meaning of runtime entry points), the gosym intrinsic models listed in evidence.stubs, and z3. "
+                     "Python NDJSON converter structure and HDF5 are outside this check."),
+    "C06": dict(text="Bounded symbolic execution (gosym) of compareTypes and the warning/error classifiers on symbolic type pairs: totality, "
+                     "reflexivity on equal-shaped copies, silence implies equal wire plan, symmetry of silence/error, warnings for partial changes.",
+                note="Type-level only (no named record/enum definitions, no protocol-level step changes yet); depth-bounded shapes; z3 and intrinsic models trusted."),
 }
